@@ -240,6 +240,116 @@ impl Subscription for MemberSub {
   }
 }
 
+/// C17, composite under threads: one or two threads append members while
+/// another unsubscribes a clone of the composite.
+#[derive(Clone, Debug, Serialize, Deserialize)]
+pub struct MTCase {
+  /// members appended by each appending thread
+  appends: Vec<usize>,
+  /// members in the composite before the threads start
+  pre: usize,
+  sched: crate::threadsim::SchedSpec,
+}
+
+pub struct C17MultiThreads;
+impl Scenario for C17MultiThreads {
+  fn name(&self) -> &'static str {
+    "c17.composite-threads"
+  }
+  fn components(&self) -> (&'static [&'static str], &'static [&'static str]) {
+    (&["MultiSubscriptionThreads append vs unsubscribe on clones (MutArc lock points interleaved)"], &["member subscriptions are harness stubs with counters", "OS thread scheduling (baton)"])
+  }
+  fn generate(&self, rng: &mut Rng, _tier: Tier) -> Value {
+    use crate::threadsim::{SchedSpec, Strategy};
+    let na = rng.range(1, 2);
+    let appends = (0..na).map(|_| rng.range(1, 3)).collect();
+    let strategy = match rng.below(3) {
+      0 => Strategy::Random,
+      1 => Strategy::Seq { den: 3 },
+      _ => Strategy::Pct { d: rng.range(1, 3) as u8, k: 30 },
+    };
+    serde_json::to_value(MTCase { appends, pre: rng.below(3), sched: SchedSpec::Seeded { seed: rng.next_u64(), strategy } }).unwrap()
+  }
+  fn run(&self, case: &Value) -> Result<Outcome, String> {
+    use crate::threadsim::*;
+    use std::sync::atomic::Ordering::SeqCst;
+    let case: MTCase = serde_json::from_value(case.clone()).map_err(|e| e.to_string())?;
+    if case.appends.is_empty() || case.appends.len() > 3 || case.appends.iter().any(|n| *n == 0 || *n > 4) || case.pre > 4 {
+      return Err("bad shape".into());
+    }
+    let shr = crate::world::Shared::new();
+    let w = crate::world::World::with_shared(shr.clone());
+    let mut composite = MultiSubscriptionThreads::default();
+    let members: std::sync::Arc<std::sync::Mutex<Vec<(usize, Member)>>> = Default::default();
+    for _ in 0..case.pre {
+      let m = Member { closed: Default::default(), unsubscribed: Default::default() };
+      composite.append(BoxSubscriptionThreads::new(MemberSub { closed: m.closed.clone(), unsubscribed: m.unsubscribed.clone() }));
+      members.lock().unwrap().push((usize::MAX, m));
+    }
+    let ts = TSim::new(shr.clone(), &case.sched, case.appends.len() + 1, 0, 5_000);
+    let mut bodies: Vec<Body> = Vec::new();
+    for (t, n) in case.appends.iter().enumerate() {
+      let mut c = composite.clone();
+      let members = members.clone();
+      let n = *n;
+      bodies.push(Box::new(move || {
+        for _ in 0..n {
+          let m = Member { closed: Default::default(), unsubscribed: Default::default() };
+          let sub = MemberSub { closed: m.closed.clone(), unsubscribed: m.unsubscribed.clone() };
+          members.lock().unwrap().push((t, m));
+          c.append(BoxSubscriptionThreads::new(sub));
+          harness_yield("between-appends");
+        }
+      }));
+    }
+    {
+      let c = composite.clone();
+      bodies.push(Box::new(move || {
+        c.unsubscribe();
+      }));
+    }
+    let rep = ts.run(bodies);
+    let site = "MultiSubscriptionThreads".to_string();
+    let mut violation = None;
+    if let Some(d) = &rep.deadlock {
+      violation = Some(Violation { rule: "c17.deadlock".into(), site: site.clone(), detail: d.clone() });
+    } else if rep.budget_overrun {
+      violation = Some(Violation { rule: "c17.livelock".into(), site: site.clone(), detail: "step budget exhausted".into() });
+    } else if let Some((t, m)) = rep.panics.first() {
+      violation = Some(Violation { rule: "c17.panic".into(), site: site.clone(), detail: format!("thread {} panicked: {}", t, m) });
+    } else {
+      // every thread has returned: the composite is unsubscribed, so every member -
+      // whether it was appended before, while or after - must have been torn down
+      let ms = members.lock().unwrap();
+      if let Some((i, (t, _))) = ms.iter().enumerate().find(|(_, (_, m))| !m.closed.load(SeqCst)) {
+        violation = Some(Violation {
+          rule: if *t == usize::MAX { "c17.member-left-running" } else { "c17.late-append-left-running" }.into(),
+          site: site.clone(),
+          detail: format!("unsubscribe() of the composite and all append() calls have returned, yet member {} ({}) is still running; is_closed() of the composite = {}", i, if *t == usize::MAX { "present from the start".to_string() } else { format!("appended by thread {}", t) }, composite.is_closed()),
+        });
+      } else if !composite.is_closed() {
+        violation = Some(Violation { rule: "c17.clone-open-after-unsubscribe".into(), site: site.clone(), detail: "a clone was unsubscribed, this handle still reports open".into() });
+      }
+    }
+    let mut resolved = case.clone();
+    resolved.sched = SchedSpec::Explicit(rep.decisions.clone());
+    let n_members = members.lock().unwrap().len();
+    drop(composite);
+    drop(w);
+    Ok(Outcome {
+      violation,
+      trace_hash: hash_mix(rep.trace_hash, n_members as u64),
+      nontrivial: rep.multi_choice > 0,
+      sim_ns: 0,
+      steps: rep.steps,
+      faults: vec![("preemption_at_lock_point", rep.preemptions), ("lock_contention", rep.contentions)],
+      reach: vec![("try_lock_contention_observed", (rep.contentions > 0) as u64)],
+      resolved: Some(serde_json::to_value(resolved).unwrap()),
+      sample: format!("appends={:?} pre={} decisions={}", case.appends, case.pre, rep.decisions.len()),
+    })
+  }
+}
+
 pub struct C17Multi;
 impl Scenario for C17Multi {
   fn name(&self) -> &'static str {
@@ -489,7 +599,7 @@ pub fn check_c02() -> PropertyCheck {
 pub fn check_c17() -> PropertyCheck {
   PropertyCheck {
     id: "C17",
-    scenarios: vec![Box::new(C17), Box::new(C17Multi), Box::new(crate::props::c02t::C17Threads)],
+    scenarios: vec![Box::new(C17), Box::new(C17Multi), Box::new(crate::props::c02t::C17Threads), Box::new(C17MultiThreads)],
     runs: (300_000, 20_000_000),
     rule: "pipelines: as C01 with is_closed() sampled after every action and after quiescence; composites: histories of <=10 append / append-closed / member-closes / unsubscribe / is_closed / clone / retain on MultiSubscription(Threads) with counting member stubs; non-trivial = >=3 samples / >=1 member and >=3 ops",
     assumptions: vec![],
